@@ -98,6 +98,8 @@ def config(r, ndev=None, mode=None, cold=None):
         s += ' fp0=129029,65301'
     if r.random() < 0.3:
         s += ' tx0=129029,127489 rx0=127250,129026'
+    if r.random() < 0.2:
+        s += ' noconf=1'                   # no configuration information configured: an ISO request for PGN 126998 is refused / ignored
     return s, ndev, src0, mode
 
 
@@ -161,7 +163,7 @@ def ep_iso_request(c):
     r = c.r
     dst = r.choice([c.own_addr(), c.own_addr(), 255, 255, 77])
     ln = r.choice([3, 3, 3] + list(range(0, 9)))
-    pgn = r.choice(REQ_PGNS + SYSTEM_PGNS + [r.randrange(1 << 24)])
+    pgn = r.choice(REQ_PGNS + SYSTEM_PGNS + [126998, 126998, 126998, 126996, r.randrange(1 << 24)])     # 126998 also meets noconf=1 configurations
     d = [pgn & 255, (pgn >> 8) & 255, (pgn >> 16) & 255] + list(rb(r, 5))
     c.ops.append(raw(can_id(6, 59904, r.choice(PEERS), dst), ln, d[:8]))
     c.P(0.7)
